@@ -13,7 +13,8 @@ theorem kind_preds_eq_code (k : Kind) :
     k.isNote = KindPreds.is_note k ∧ k.isScale = KindPreds.is_scale_note k ∧
     k.isChromatic = KindPreds.is_chromatic_note k ∧ k.isChord = KindPreds.is_chord_note k ∧
     k.isBass = KindPreds.is_bass_note k ∧ k.isAbsolute = KindPreds.is_absolute_note k ∧
-    k.isDrumNote = KindPreds.is_drum_note k := by
+    k.isDrumNote = KindPreds.is_drum_note k ∧
+    decide (k = Kind.r) = KindPreds.is_silence k ∧ decide (k = Kind.l) = KindPreds.is_continuation k := by
   cases k <;> decide
 
 end MV.Tie
